@@ -18,11 +18,14 @@ def _copy(repo, scratch):
 
 def run_in_crate(repo, scratch, stem, test_filter="", timeout=900):
     crate = _copy(repo, scratch)
-    src = os.path.join(VERIF, "replay", "in_crate", stem + ".rs")
-    head = open(src).read(500)
-    rel = re.search(r"^//@inject\s+(\S+)", head, re.M).group(1)
-    with open(os.path.join(crate, rel), "a") as fh:
-        fh.write('\n#[cfg(test)]\n#[path = "%s"]\nmod __replay_%s;\n' % (src, stem))
+    import glob
+    # inject every in-crate replay module (they may use each other's helpers)
+    for src in sorted(glob.glob(os.path.join(VERIF, "replay", "in_crate", "*.rs"))):
+        head = open(src).read(500)
+        rel = re.search(r"^//@inject\s+(\S+)", head, re.M).group(1)
+        st = os.path.splitext(os.path.basename(src))[0]
+        with open(os.path.join(crate, rel), "a") as fh:
+            fh.write('\n#[cfg(test)]\n#[path = "%s"]\npub(crate) mod __replay_%s;\n' % (src, st))
     env = dict(os.environ, CARGO_TARGET_DIR=TARGET, CARGO_NET_OFFLINE="true", RUST_BACKTRACE="0")
     cmd = ["cargo", "test", "--offline", "--lib", "__replay_%s::%s" % (stem, test_filter), "--", "--test-threads", "1"]
     p = subprocess.run(cmd, cwd=crate, env=env, capture_output=True, text=True, timeout=timeout)
